@@ -50,7 +50,7 @@ def bit (n k : Nat) : Bool := (n / 2^k) % 2 = 1
 /-- `id:ins:outs:lock:ver:fee:vsize:ssize:size:bits` -/
 def parseTx? (s : String) : Option TxAbs :=
   match s.splitOn ":" with
-  | [id, ins, outs, lock, _ver, fee, vsize, ssize, size, bits] => do
+  | [id, ins, outs, lock, ver, fee, vsize, ssize, size, bits] => do
     let id ← id.toNat?
     let ins ← (splitList ins ",").mapM parseIn?
     -- `nOuts` counts the spendable outputs; provably unspendable (null-data) outputs come last in every
@@ -64,14 +64,14 @@ def parseTx? (s : String) : Option TxAbs :=
     -- ids are ranks: a transaction can only reference what existed before it
     if !ins.all (fun p => p.1.txid < id) then none
     pure { id := id, ins := ins.map (·.1), seqs := ins.map (·.2), nOuts := nOuts,
-           lockTime := ← parseLock? lock, fee := ← fee.toNat?, vsize := vsize, ssize := ← ssize.toNat?,
+           lockTime := ← parseLock? lock, version := ((← ver.toInt?) % 4294967296).toNat, fee := ← fee.toNat?, vsize := vsize, ssize := ← ssize.toNat?,
            size := ← size.toNat?, sane := bit b 0, coinbase := bit b 1, valuesOk := bit b 2, std := bit b 3,
-           seqLockOk := bit b 4, sigOk := bit b 5, highPrio := bit b 6, scriptsOk := bit b 7 }
+           sigOk := bit b 5, highPrio := bit b 6, scriptsOk := bit b 7 }
   | _ => none
 
 def cbTx (id nOuts : Nat) : TxAbs :=
-  { id := id, ins := [], seqs := [], nOuts := nOuts, lockTime := 0, fee := 0, vsize := 100, ssize := 100,
-    size := 100, sane := true, coinbase := true, valuesOk := true, std := true, seqLockOk := true,
+  { id := id, ins := [], seqs := [], nOuts := nOuts, lockTime := 0, version := 1, fee := 0, vsize := 100, ssize := 100,
+    size := 100, sane := true, coinbase := true, valuesOk := true, std := true,
     sigOk := true, highPrio := false, scriptsOk := true }
 
 inductive Cmd
